@@ -719,6 +719,15 @@ class ListenerRequestHandler(BaseHTTPRequestHandler):
         if cim_error is not None:
             self.send_header("CIMError", cim_error)
         if cim_error_details is not None:
+            # The details contain request-derived text (header values, XML
+            # parser messages quoting the request). A header field value
+            # must not contain CR, LF or other control characters (otherwise
+            # the text after a line break becomes further header lines or
+            # the body), and must be representable in ISO-8859-1.
+            cim_error_details = re.sub(
+                r'[\x00-\x1f\x7f]+', ' ', cim_error_details)
+            cim_error_details = cim_error_details.encode(
+                'latin-1', 'backslashreplace').decode('latin-1')
             self.send_header("CIMErrorDetails", cim_error_details)
         if headers is not None:
             for header, value in headers:
